@@ -211,16 +211,14 @@ Definition scale_linear (slope intercept : float) (v : value) : res value :=
    numpy.polynomial.polynomial.polyval:
        c0 = c[-1] + x*0
        for i in range(2, len(c) + 1): c0 = c[-i] + c0*x *)
-Definition polyval1 (rev_coeffs : list float) (x : float) : float :=
-  match rev_coeffs with
-  | [] => 0%float
-  | clast :: rest => fold_left (fun c0 c => (c + c0 * x)%float) rest (clast + x * 0)%float
-  end.
+(* clast = c[-1], rest = c[-2], c[-3], ..., c[0] *)
+Definition horner (clast : float) (rest : list float) (x : float) : float :=
+  fold_left (fun c0 c => (c + c0 * x)%float) rest (clast + x * 0)%float.
 
 Definition scale_polynomial (coeffs : list float) (v : value) : res value :=
-  match coeffs with
+  match rev coeffs with
   | [] => Ok (VD (repeat 0%float (vlen v)))
-  | _ => Ok (VD (map (polyval1 (rev coeffs)) (astype_f64 v)))
+  | clast :: rest => Ok (VD (map (horner clast rest) (astype_f64 v)))
   end.
 
 (* TableScaling.scale: np.interp(data, self.input_values, self.output_values)
@@ -243,13 +241,17 @@ Fixpoint interp_search (p0 : float * float) (rest : list (float * float)) (x : f
         else r
   end.
 
+(* last point of the non-empty list p0 :: rest *)
+Fixpoint last_point (p0 : float * float) (rest : list (float * float)) : float * float :=
+  match rest with [] => p0 | p1 :: rest' => last_point p1 rest' end.
+
 Definition interp1 (p0 : float * float) (rest : list (float * float)) (x : float) : float :=
   match rest with
   | [] =>                                                   (* lenxp == 1 *)
       (* (x < xp) ? lval : ((x > xp) ? rval : fp)  with lval = rval = fp *)
       snd p0
   | _ =>
-      let plast := last rest p0 in
+      let plast := last_point p0 rest in
       if fnan x then x
       else if (fst plast <? x)%float then snd plast         (* key > arr[len-1]: right *)
       else if (x <? fst p0)%float then snd p0               (* key < arr[0]: left *)
